@@ -342,3 +342,29 @@ def finish(rep, level, explanation, assumptions, trusted_base):
         prop, rep.tier, len(rep.units), len(rep.functions), n_obl, len(proved), len(listed), len(undec),
         len(unlisted), time.time() - rep.t0))
     return 1 if unlisted else 0
+
+
+def compile_witnesses(items):
+    """build (not run) witnesses: items = [(label, argv head e.g. ['gcc', '-O2', '-msha'], source text)].  The object is
+    discarded.  Returns [(label, ok, stderr tail)]."""
+    os.makedirs(os.path.join(CACHE, "units"), exist_ok=True)
+
+    paths = {}
+    for label, head, txt in items:               # written before the pool starts: several items share one text
+        h = hashlib.sha256(txt.encode()).hexdigest()[:16]
+        p = os.path.join(CACHE, "units", "w_%s.c" % h)
+        if not os.path.exists(p):
+            tmp = p + ".%d.tmp" % os.getpid()
+            with open(tmp, "w") as f:
+                f.write(txt)
+            os.replace(tmp, p)
+        paths[label] = p
+
+    def one(it):
+        label, head, txt = it
+        p = paths[label]
+        r = _run(head + flags() + ["-c", "-o", "/dev/null", p])
+        err = [l for l in r.stderr.decode().splitlines() if "error" in l]
+        return label, r.returncode == 0, (err[0] if err else r.stderr.decode()[-300:])
+    with concurrent.futures.ThreadPoolExecutor(max_workers=JOBS) as ex:
+        return list(ex.map(one, items))
